@@ -3,6 +3,8 @@ EXTENDS Patch, Json
 MCTextPool == { <<"alnum">> }
 MCBytePool == {}
 PatchSchemas == {"Ent", "Leaf"}
+\* $delete documents naming ONE field, deletable or not, own or inherited through one or two includes
+DeleteSchemas == {"Ent", "Leaf", "IncMid", "IncTop", "SibG", "OptDef"}
 ExclPool == { {}, { <<"id">> }, { <<"nested", "b">> }, { <<"created">>, <<"id">> }, { <<"nested">> } }
 Unions == {n \in SchemaNames : SchemaOf[n].k = "union"}
 Aliases(n) == {SchemaOf[n].members[i].a : i \in DOMAIN SchemaOf[n].members}
@@ -10,11 +12,13 @@ Aliases(n) == {SchemaOf[n].members[i].a : i \in DOMAIN SchemaOf[n].members}
 VARIABLES kind, sname, item
 Init == /\ item = None
         /\ \/ kind = "patch" /\ sname \in PatchSchemas
+           \/ kind = "deldoc" /\ sname \in DeleteSchemas
            \/ kind = "union" /\ sname \in Unions
            \/ kind = "enum" /\ sname \in {n \in SchemaNames : SchemaOf[n].k = "enum"}
            \/ kind = "fixed" /\ sname \in {n \in SchemaNames : SchemaOf[n].k = "fixed"}
 Next == /\ item = None /\ UNCHANGED <<kind, sname>>
         /\ CASE kind = "patch" -> \E p \in PatchVals(sname, 1), e \in ExclPool : item' = [p |-> p, excl |-> e]
+             [] kind = "deldoc" -> \E i \in DOMAIN FieldsOf(sname) : item' = [field |-> FieldsOf(sname)[i]]
              [] kind = "union" -> \E S \in SUBSET Aliases(sname) : item' = [members |-> S]
              [] kind = "enum"  -> \E k \in (0 - 1)..(Len(SchemaOf[sname].syms) + 1) : item' = [ordinal |-> k]
              [] kind = "fixed" -> \E l \in 0..(SchemaOf[sname].size + 1) : item' = [len |-> l]
@@ -38,6 +42,7 @@ Export == Set => PrintT(ToJson(
   CASE kind = "patch" -> [kind |-> kind, schema |-> sname, patch |-> item.p, excl |-> SetSeq(item.excl),
                           legal |-> Legal(item.p, item.excl, <<>>), tree |-> Body(item.p),
                           amb |-> \E i \in DOMAIN item.p.v : item.p.v[i].set # None /\ \E e \in item.excl : Len(e) > 1 /\ e[1] = item.p.v[i].k]
+    [] kind = "deldoc" -> [kind |-> kind, schema |-> sname, field |-> item.field.n, valid |-> Deletable(item.field)]
     [] kind = "union" -> [kind |-> kind, schema |-> sname, members |-> SetSeq(item.members), valid |-> UnionValid(sname, item.members)]
     [] kind = "enum"  -> [kind |-> kind, schema |-> sname, ordinal |-> item.ordinal, valid |-> EnumOrdinalValid(sname, item.ordinal),
                           symbols |-> SchemaOf[sname].syms]
